@@ -186,7 +186,7 @@ rehash(ZixHash* const hash, const size_t old_n_entries)
     if (entry->value) {
       assert(hash->mask == hash->n_entries - 1U);
       const size_t new_h = fold_hash(entry->hash, hash->mask);
-      const size_t new_i = find_entry(hash, entry->value, new_h, entry->hash);
+      const size_t new_i = find_entry(hash, hash->key_func(entry->value), new_h, entry->hash);
 
       hash->entries[new_i] = *entry;
     }
